@@ -6,6 +6,7 @@ import (
 	"path/filepath"
 	"sort"
 	"strings"
+	"time"
 
 	"github.com/insomniacslk/dhcp/dhcpv4"
 	"github.com/insomniacslk/dhcp/dhcpv6"
@@ -423,7 +424,13 @@ func (s *static) request(w *World) {
 		m := w.build6(c, mt)
 		withNA := t.Draw(4) != 0
 		if withNA {
-			m.AddOption(&dhcpv6.OptIANA{IaId: [4]byte{7, 7, 7, byte(c.ID)}})
+			na := &dhcpv6.OptIANA{IaId: [4]byte{7, 7, 7, byte(c.ID)}}
+			// a renewing or hinting client lists addresses in its IA_NA: what comes back is the file's address, no more
+			for k := int(t.Draw(3)); k > 0 && t.Draw(2) == 0; k-- {
+				na.Options.Add(&dhcpv6.OptIAAddress{IPv6Addr: s.ipFor(t, true), PreferredLifetime: 1800 * time.Second, ValidLifetime: 3600 * time.Second})
+				w.Probe("file.v6_request_lists_addresses")
+			}
+			m.AddOption(na)
 		}
 		w.send6(c, m, fmt.Sprintf("%s IA_NA=%v", mt, withNA))
 		return
